@@ -241,6 +241,23 @@ UNITS.append(dict(name="c01_prm_addMilestone", template="C01/prm_milestone.c", m
                   canaries=[dict(name="edge_without_motion_check", where="body:addMilestone", rx=r"if \(CM\(SP\[n\], SP\[m\]\)\)", repl="if (CM(SP[n], SP[m]) || 1)"),
                             dict(name="components_not_united", where="body:addMilestone", rx=r"UNITE\(n, m\);", repl="")]))
 
+PLF = "src/ompl/base/src/Planner.cpp"
+NG_RULES = [
+    (r"std::string error = .*?throw Exception\(error\);", "thrown = 1; return 0;", 0, re.S), (r"pdef_ == nullptr \|\| si_ == nullptr", "!pdef_set || !si_set", 0),
+    (r"pdef_->getGoal\(\) != nullptr", "HAS_GOAL", 0), (r"const GoalSampleableRegion \*goal =.*?: nullptr;", "int goal = GOAL_SAMPLEABLE ? 1 : 0;", 0, re.S), (r"goal != nullptr", "goal != 0", 0),
+    (r"time::point start_wait;", "", 0), (r"goal->maxSampleCount\(\)", "MAXSAMPLES", 0), (r"goal->canSample\(\)", "CAN_SAMPLE()", 0), (r"goal->couldSample\(\)", "COULD_SAMPLE()", 0),
+    (r"tempState_ == nullptr", "tempState_ == 0", 0), (r"tempState_ = si_->allocState\(\);", "tempState_ = 7;", 0), (r"goal->sampleGoal\(tempState_\);", "SAMPLE_GOAL();", 0),
+    (r"si_->satisfiesBounds\(tempState_\)", "SAT_BOUNDS()", 0), (r"si_->isValid\(tempState_\)", "IS_VALID()", 0),
+    (r"OMPL_(?:DEBUG|WARN)\((?:[^()]|\((?:[^()]|\((?:[^()]|\([^()]*\))*\))*\))*\);", "", 0), (r"std::stringstream ss;\s*si_->printState\(tempState_, ss\);", "", 0),
+    (r"!ptc\b", "!PTC()", 0), (r"start_wait = time::now\(\);", "", 0), (r"std::this_thread::sleep_for\(time::seconds\(0\.01\)\);", "SLEEP();", 0), (r"return nullptr;", "return 0;", 0),
+]
+NG_UNIT = dict(name="c01_inputstates_nextGoal_ptc", template="C01/nextgoal.c", mode="plain", entry="h_nextGoal_ptc", flags=["--bounds-check", "--pointer-check", "--unsigned-overflow-check"], unwind=6, level="bounded",
+               bound="goal regions of <= 3 samples, <= 2 waiting rounds", backend="minisat", timeout=300, functions=["ompl::base::PlannerInputStates::nextGoal(const PlannerTerminationCondition&)"],
+               sources=[dict(name="nextGoal_ptc", file=PLF, sig=r"const ompl::base::State \*ompl::base::PlannerInputStates::nextGoal\(const PlannerTerminationCondition &ptc\)", rules=NG_RULES, loops={"allow_uncontracted": True})],
+               canaries=[dict(name="termination_not_consulted_between_samples", where="body:nextGoal_ptc", rx=r"while \(!PTC\(\) && sampledGoalsCount_", repl="while (sampledGoalsCount_"),
+                         dict(name="validity_of_the_previous_sample", where="body:nextGoal_ptc", rx=r"bool valid = bounds \? IS_VALID\(\) : false;", repl="bool valid = bounds ? valid_ok : false;")])
+UNITS.append(NG_UNIT)
+
 # roadmap planners: a new problem definition forgets the old query's start/goal milestones (otherwise the old query's path is reported for the new one) -- units of C03
 def _c03_query_units():
     sp = importlib.util.spec_from_file_location("c03q", os.path.join(os.path.dirname(__file__), "C03.py")); m = importlib.util.module_from_spec(sp)
